@@ -20,6 +20,7 @@ fn adapter(name: &str, variant: &str) -> Option<Box<dyn Adapter>> {
         "cache" => Box::new(adapters::cache::CacheAd::new()),
         "coalesce" => Box::new(adapters::coalesce::CoalesceAd::new()),
         "fallback" => Box::new(adapters::fallback::FallbackAd::new()),
+        "stacks" => Box::new(adapters::stacks::StacksAd::new()),
         "circuitbreaker" => Box::new(adapters::circuitbreaker::CbAd::new(variant)),
         _ => return None,
     })
@@ -46,7 +47,10 @@ fn main() {
     let mut lines: Vec<String> = vec![];
     let stats;
     let variant = arg(&args, "--variant").unwrap_or_default();
-    if comp == "chaos" {
+    if comp == "listeners" {
+        let (nr, ne) = adapters::listeners::run_listeners(&mut lines);
+        stats = RunStats { runs: nr, events: ne, skipped: 0 };
+    } else if comp == "chaos" {
         let (nr, ne) = if mode == "replay" {
             let input = std::fs::read_to_string(arg(&args, "--in").expect("--in")).expect("read input");
             adapters::chaos::replay(&input, &mut lines)
